@@ -5,5 +5,5 @@ set -u
 cd "$(dirname "$0")"
 export CARGO_NET_OFFLINE=true
 mkdir -p .build/logs
-python3 -m vf.setup_warm
+python3-vt -m vf.setup_warm
 exit 0
